@@ -86,6 +86,10 @@ def ds_plan(tier, seed, subs, stall_points, thread_sets, rounds_q=60, rounds_t=6
                 k += 1
                 runs.append(ds("mon", sub, seed, k, thr, mode="stall", stall_point=sp, stall_us_lo=30, stall_us_hi=600,
                                stall_every=7, rounds=max(10, rounds // 3), ops=ops, **(extra or {})))
+            # signal-driven preemption at arbitrary instructions, with and without hooks
+            for mode in ("nohook", "jitter"):
+                k += 1
+                runs.append(ds("mon", sub, seed, k, thr, mode=mode, hist=1, preempt=1, rounds=rounds, ops=ops, **(extra or {})))
         for thr in ([thread_sets[0][-1]] if q else thread_sets[1][-2:]):
             k += 1
             runs.append(ds("asan", sub, seed, k, thr, mode="jitter", rounds=max(10, rounds // 3), ops=ops, **(extra or {})))
@@ -193,6 +197,11 @@ def fb_plan(tier, seed, binary, sub, stalls, trials_q, trials_t, threads_q=(1, 2
         runs.append(fb(binary, "asan", sub, seed, k, thr, mode="jitter", trials=max(3, trials // 3), **extra))
         k += 1
         runs.append(fb(binary, "dbg", sub, seed, k, thr, mode="jitter", trials=max(3, trials // 3), **extra))
+    # signal-driven preemption of the kernel threads at arbitrary instructions (windows without hook points)
+    for thr in ((threads_q[-2], threads_q[-1]) if q else threads_t[2:]):
+        for mode in ("monitor", "jitter"):
+            k += 1
+            runs.append(fb(binary, "mon", sub, seed, k, thr, mode=mode, preempt=1, trials=trials, **extra))
     if tsan:
         for thr in ((4,) if q else (2, 4, 8)):
             k += 1
@@ -244,7 +253,14 @@ def c07(tier, seed):
 
 
 def c12(tier, seed):
-    return dict(runs=fb_plan(tier, seed, "h_sync", "barrier", ["WAIT_MPSC_PRE_PUSH", "MPSC_MID", "SWITCH_PRE", "SCHEDULED", "BARRIER_LAST"], 14, 80),
+    q = tier == "quick"
+    runs = fb_plan(tier, seed, "h_sync", "barrier", ["WAIT_MPSC_PRE_PUSH", "MPSC_MID", "SWITCH_PRE", "SCHEDULED", "BARRIER_LAST"], 14, 80)
+    # volume under signal-driven preemption: tens of thousands of back-to-back rounds of small barriers (windows between
+    # the arrival counter update and the decisions derived from it have no hook point)
+    for i, thr in enumerate((4, 8, 8, 16) if q else (2, 4, 8, 8, 16, 16)):
+        runs.append(fb("h_sync", "mon", "barrier", seed + 5, 800 + i, thr, mode="monitor", preempt=1, preempt_us=60, trials=6 if q else 40,
+                       rounds=20000, maxcount=16, livelock_prop="C12"))
+    return dict(runs=runs,
                 rule=TRIAL_RULE + "Counts {1,2,3,4,7,16,64}, up to 300 back-to-back rounds by the same fibers. Oracles: on return from wait #k exactly "
                 "'count' fibers have entered round k, one serial fiber per round, everybody returns (quiescence).",
                 min_events={"barrier_rounds": 500},
